@@ -226,6 +226,21 @@ def ser_rules(ctx, flavours):
                                 for gbi_, gt_ in calls_in(sb_, lambda t_: t_.get('local') and t_.get('res') in M.methods and len(t_['args']) == 2):
                                     ix_ = deep_unwrap(spv_.of_operand(gt_['args'][1]))
                                     okix = isinstance(ix_, tuple) and ix_ and ix_[0] == 'call' and ix_[1].endswith('::len') and deep_unwrap(ix_[2][0]) == vec_
+                                    if not okix and isinstance(ix_, tuple) and ix_ and ix_[0] == 'join' and len(ix_[1]) == 2 and ('const', '0_usize') in ix_[1]:
+                                        # the same thing kept in a counter: starts at 0, `+= 1` once per push on every path round the loop
+                                        oth = [x for x in ix_[1] if x != ('const', '0_usize')][0]
+                                        if isinstance(oth, tuple) and oth[0] == 'f' and oth[2] == '0':
+                                            oth = oth[1]
+                                        if isinstance(oth, tuple) and oth[0] == 'binop' and oth[1] in ('AddWithOverflow', 'Add', 'AddUnchecked') and \
+                                                isinstance(oth[2][0], tuple) and oth[2][0][0] == 'cycle' and oth[2][1] == ('const', '1_usize'):
+                                            cl_ = oth[2][0][1]
+                                            incs = [bi_ for bi_, blk_ in enumerate(sb_['blocks']) for st_ in blk_['stmts']
+                                                    if st_['k'] == 'assign' and st_['dst']['l'] == cl_ and not st_['dst']['p'] and bi_ in scfg_.reach and
+                                                    not (st_['rv']['k'] == 'use' and st_['rv']['ops'] and st_['rv']['ops'][0].get('k') == 'const')]
+                                            lp_ = [(h_, body_) for h_, body_ in sloops_.items() if sp_[0] in body_]
+                                            if len(incs) == 1 and lp_ and incs[0] in lp_[0][1] and \
+                                                    all(scfg_.dominates(incs[0], x_) and scfg_.dominates(sp_[0], x_) for x_ in lp_[0][1] if lp_[0][0] in scfg_.succ[x_]):
+                                                okix = True
                                     if F.types[sb_['locals'][gt_['args'][1]['pl']['l']]].get('s') == 'usize' and not okix:
                                         why2.append('%s reads entry %s, expected the entry at index len(list built so far)' % (sb_['name'], pretty(ix_)))
                 if fp != {M.OUT}:
